@@ -3,7 +3,7 @@ import json
 import vlib
 
 DEVS = ["Dev_MemOldestFirst", "Dev_L0OldestFirst", "Dev_ScanDropsMemTomb", "Dev_GetLevelsFirst",
-        "Dev_EndSeqLastKey", "Dev_RotateDropsLatest", "Dev_TableIdReuse", "Dev_GcIgnoresSharing"]
+        "Dev_EndSeqLastKey", "Dev_RotateDropsLatest", "Dev_TableIdReuse", "Dev_GcIgnoresSharing", "Dev_RetainDropsNewer"]
 
 INV_READ = ["GetOK", "ScanOK", "LiveTablesExist", "SeqOK"]
 INV_CKPT = ["RestoreOK", "FilesSafe", "LiveTablesExist", "SeqOK"]
@@ -88,6 +88,9 @@ SCRIPTS = {
     "reopen-flush-gc": [_w(1, 1), _w(2, 1), _w(3, 1), _s("FlushStart"), _s("FlushSwap"), _s("Checkpoint"), _s("SaveWal", id=1), _s("SaveDoc", id=1),
                         _s("Reopen", id=1, crash=False), _s("GcRun"), _w(1, 2), _w(2, 2), _w(3, 2), _s("FlushStart"), _s("FlushSwap"), _s("GcRun"),
                         _s("GetBegin", k=3), _s("GetEnd")],
+    # a retention notice naming only checkpoint 1 arrives while checkpoint 2 is being saved (#28)
+    "retain-during-save": [_w(1, 1), _s("Checkpoint"), _s("SaveWal", id=1), _s("SaveDoc", id=1), _w(2, 1), _s("Checkpoint"), _s("Retain", ids="{1}"),
+                           _s("SaveWal", id=2), _s("SaveDoc", id=2), _w(3, 1), _s("Checkpoint"), _s("SaveWal", id=3), _s("SaveDoc", id=3), _s("Retain", ids="{3}")],
     # retention drops checkpoint 1: its WAL goes, checkpoint 2 keeps restoring
     "retain-newest": [_w(1, 1), _s("Checkpoint"), _s("SaveWal", id=1), _s("SaveDoc", id=1), _w(2, 1), _w(3, 1), _w(1, 2), _s("FlushStart"),
                       _s("FlushSwap"), _s("Checkpoint"), _s("SaveWal", id=2), _s("SaveDoc", id=2), _s("Retain", ids="{2}"), _s("GcRun"),
